@@ -165,6 +165,22 @@ def PEntries.ok (flow : Bool) : PEntries → Bool
 end
 
 mutual
+/-- Does the node contain an alias or an anchor named `a`? -/
+def PNode.mentions (a : Str) : PNode → Bool
+  | .alias x _ => x == a
+  | .anchored x n => x == a || n.mentions a
+  | .seq _ _ _ items => items.mentions a
+  | .map _ _ _ entries => entries.mentions a
+  | _ => false
+def PItems.mentions (a : Str) : PItems → Bool
+  | .nil => false
+  | .cons _ n rest => n.mentions a || rest.mentions a
+def PEntries.mentions (a : Str) : PEntries → Bool
+  | .nil => false
+  | .cons _ _ _ n rest => n.mentions a || rest.mentions a
+end
+
+mutual
 /-- Anchor scoping in document order: every alias names an anchor already defined whose tree is the
 alias's target (an anchor is in scope from the start of its node, so anchors defined inside the node
 are more recent than the node's own).  Returns the environment after the node. -/
@@ -173,7 +189,11 @@ def PNode.scope (env : Env) : PNode → Option Env
     match env.lookup a with
     | some t' => if t'.beq t then some env else none
     | none => none
-  | .anchored a n => (n.scope env).map fun e => e.take (e.length - env.length) ++ (a, n.tree) :: env
+  | .anchored a n =>
+    -- an alias to (or a re-definition of) the node's own anchor name inside the node would denote a
+    -- recursive structure (the anchor is in scope from the node's start): not admissible
+    if n.mentions a then none
+    else (n.scope env).map fun e => e.take (e.length - env.length) ++ (a, n.tree) :: env
   | .seq _ _ _ items => items.scope env
   | .map _ _ _ entries => entries.scope env
   | _ => some env
